@@ -985,6 +985,7 @@ class OmniParser(PVLParser):
         # Also keep track of how many newlines are removed where, so
         # that line numbers can still be given for the original text.
         self._removed_newlines = list()
+        removed = list()
         pieces = list()
         last = 0
         length = 0
@@ -992,12 +993,25 @@ class OmniParser(PVLParser):
             pieces.append(s[last:match.start()])
             length += match.start() - last
             self._removed_newlines.append((length, match.group().count("\n")))
+            removed.append((length, len(match.group())))
             last = match.end()
         pieces.append(s[last:])
         nodash = "".join(pieces)
         self.doc = nodash
 
-        return super().parse(nodash)
+        try:
+            return super().parse(nodash)
+        except LexerError as err:
+            if len(removed) == 0:
+                raise
+            # Report the position in the text that was passed in.
+            pos = err.pos
+            for (pos_removed, count) in removed:
+                if pos_removed <= err.pos:
+                    pos += count
+            raise LexerError(
+                err.msg, s, pos + len(err.lexeme) - 1, err.lexeme
+            ) from None
 
     def _dash_continuations(self, s: str):
         """Yields a match object for each dash continuation in *s*.
